@@ -10,7 +10,7 @@
    pattern read as an expression under s rebuilds v" is NOT proved for arbitrary
    nesting; it is what the correspondence run checks against the implementation
    on the pattern x value product (matching, near-miss and wrong-kind values). *)
-From Arrai Require Import Base.Val Spec.SetAlg Eval.Interp Proofs.ValOrder Proofs.PatternP Proofs.PatArrP Proofs.PatTupP.
+From Arrai Require Import Base.Val Spec.SetAlg Eval.Interp Proofs.ValOrder Proofs.PatternP Proofs.PatArrP Proofs.PatTupP Proofs.PatSetP.
 
 Theorem C09_repeated_names_must_agree :
   forall t s r x a w, env_matched_update s t = Some r -> env_get x s = Some (D a) -> In (x, w) t -> w = D a.
@@ -132,3 +132,24 @@ Theorem C09_flat_tuple_pattern_no_other_attribute :
     exists tv, v = VTup tv /\ forall m x, In (m, x) tv -> exists n, In n (map fst nls) /\ name_cmp m n = Eq.
 Proof. exact flat_tuple_pattern_no_other_attribute. Qed.
 Print Assumptions C09_flat_tuple_pattern_no_other_attribute.
+
+(* set patterns {lit1, .., litk, ...r}: the match succeeds exactly when every literal is a member (and no two
+   literals denote the same value), and r is bound to precisely the other members *)
+Theorem C09_set_rest_pattern_binds_the_other_members :
+  forall fuel rho ws r v sc,
+    bind_pat (S (S fuel)) rho (PSet (lit_items ws ++ [PExtra (Some r)])) (D v) = Ok sc ->
+    exists l, v = VSet l /\ sc = [(r, D (VSet (without_all l ws)))] /\ forall w, In w ws -> In (norm w) l.
+Proof. exact set_rest_pattern_sound. Qed.
+Print Assumptions C09_set_rest_pattern_binds_the_other_members.
+
+Theorem C09_set_rest_pattern_matches_when_literals_are_members :
+  forall fuel rho ws r l,
+    NoDup (map norm ws) -> (forall w, In w ws -> In (norm w) l) ->
+    bind_pat (S (S fuel)) rho (PSet (lit_items ws ++ [PExtra (Some r)])) (D (VSet l)) = Ok [(r, D (VSet (without_all l ws)))].
+Proof. exact set_rest_pattern_complete. Qed.
+Print Assumptions C09_set_rest_pattern_matches_when_literals_are_members.
+
+Theorem C09_set_rest_is_exactly_the_remainder :
+  forall ws l x, In x (without_all l ws) <-> In x l /\ ~ In x (map norm ws).
+Proof. exact without_all_spec. Qed.
+Print Assumptions C09_set_rest_is_exactly_the_remainder.
